@@ -7,6 +7,7 @@ import (
 	"go/token"
 	"go/types"
 	"reflect"
+	"regexp"
 	"sort"
 	"strconv"
 	"strings"
@@ -193,6 +194,14 @@ func CheckC11(c *Ctx) {
 			good = okp && prec == -1 && usesBitsTable(resolveLocals(info, get.Decl.Body, call.Args[3]))
 			return false
 		})
+		if !good {
+			// the formatting may have moved into a helper: decided on the SSA term of what
+			// getReflectValue returns (helpers expanded): FormatFloat(value.Float(), verb, -1, table[value.Kind()])
+			if fn := c.ssaFunc(get); fn != nil {
+				term := ssaTerm(fn, new([]string), 0)
+				good = floatFormatTerm.MatchString(term)
+			}
+		}
 		run.Oblige(good)
 		if !good {
 			c.violate("codec-agreement/float", "helper.getReflectValue", "FormatFloat", cc.Pos(), "floats are not written with FormatFloat(v, fmt, -1, kindToBits[kind]): the shortest representation that parses back to the same bits is required for a loss-free round trip")
@@ -229,8 +238,21 @@ func CheckC11(c *Ctx) {
 	})
 	if tset != nil {
 		g1 := layoutArgOK(get.Decl, "time.(Time).Format", 0, "format")
+		if !g1 {
+			if fn := c.ssaFunc(get); fn != nil {
+				// Format's layout is the second parameter of getReflectValue, whichever helper calls it
+				g1 = timeFormatTerm.MatchString(ssaTerm(fn, new([]string), 0)) ||
+					ssaParamReaches(fn, 1, func(name string) bool { return name == "method.Format" }, 1, 0)
+			}
+		}
 		g2 := layoutArgOK(tset.Decl, "time.Parse", 0, "format")
 		g3 := layoutArgOK(set.Decl, "github.com/cinar/indicator/v2/helper."+tset.Fn.Name(), 2, "format")
+		if !(g2 && g3) {
+			// the layout parameter of setReflectValue reaches time.Parse as its layout, through whatever helpers
+			if fn := c.ssaFunc(set); fn != nil && ssaParamReaches(fn, 2, func(name string) bool { return name == "time.Parse" }, 0, 0) {
+				g2, g3 = true, true
+			}
+		}
 		run.Oblige(g1 && g2 && g3)
 		if !(g1 && g2 && g3) {
 			c.violate("codec-agreement/time", "helper.getReflectValue/setReflectValueFromTime", "layout", get.Decl.Pos(), "time values are not formatted and parsed with the same `format` value")
@@ -1109,3 +1131,6 @@ func (c *Ctx) timeLayouts() {
 	}
 	run.Floor("time_layouts", 2)
 }
+
+var floatFormatTerm = regexp.MustCompile(`strconv\.FormatFloat\(method\.Float\(param#0\), \d+, -1, lookup\(load\(global:\w+\), method\.Kind\(param#0\)\)\)`)
+var timeFormatTerm = regexp.MustCompile(`method\.Format\(assert:time\.Time\(method\.Interface\(param#0\)\), param#1\)`)
